@@ -700,7 +700,12 @@ def extract_term(sc, labels):
             opts = [starred(o) for o in v.options]
             return t.add("ustar", node_of(v.selector), opts)
         if isinstance(v, D.MultiplexerDistribution):
-            idx = node_of(v.index)
+            # the selector is the first constructor argument = the first dependency (always a DiscreteRange);
+            # the attribute holding it has been renamed before (index -> _index), so it is not looked up by name
+            deps = v._dependencies
+            if not deps or not isinstance(deps[0], D.DiscreteRange) or any(deps[0] is o for o in v.options):
+                raise OutsideFragment("multiplexer whose first dependency is not its selector")
+            idx = node_of(deps[0])
             return t.add("mux", idx, [node_of(o) for o in v.options])
         if isinstance(v, D.TupleDistribution):
             if v.builder is tuple:
